@@ -16,14 +16,15 @@ PID = "C18"
 LEVEL = "exploration"
 ENGINE = "hooksim"
 CHUNK = 16
-REACH = ['loaded_instrumented', 'loaded_plain', 'fault:crash', 'fault:pyc_write_fail', 'fault:pyc_lost_write', 'fault:pyc_torn_write', 'fault:pyc_deleted', 'edit:clock_back', 'op:reload', 'runs_with_dont_write_bytecode', 'import_failed_while_a_source_is_broken', 'pyc_tagged_seen', 'histories_cross_validated_with_real_processes']  # counters (prefixes) that a healthy batch makes non-zero; gaps are reported in the evidence
+REACH = ['loaded_instrumented', 'loaded_plain', 'fault:crash', 'fault:pyc_write_fail', 'fault:pyc_lost_write', 'fault:pyc_torn_write', 'fault:pyc_deleted', 'fault:source_edit_landed_during_import', 'edit:clock_back', 'op:reload', 'runs_with_dont_write_bytecode', 'import_failed_while_a_source_is_broken', 'pyc_tagged_seen', 'histories_cross_validated_with_real_processes']  # counters (prefixes) that a healthy batch makes non-zero; gaps are reported in the evidence
 BUDGET = {"quick": 40, "thorough": 600}
 RULE = (
     "Seeded histories of 2-6 simulated process runs over one real cache directory (real importlib, real "
     "jaxtyping hook, bytecode writing ON); per run: 0-3 hooked names out of a forest with look-alike names, "
     "checker a/b/None, 2-7 imports incl. nested and function-level imports, optional mid-run uninstall, "
     "edits with simulated mtime clock (forward/backward/far), in-process reload, module bodies that raise, "
-    "disk faults (ENOSPC, lost write, torn write, deleted pyc, crash at k-th write).  Oracle: every loaded "
+    "disk faults (ENOSPC, lost write, torn write, deleted pyc, crash at k-th write), source edits landing while the "
+    "import that read the old text is still in flight.  Oracle: every loaded "
     "module is instrumented iff a currently active hook covers it, with that hook's checker, running the "
     "current source version.  distinct_nontrivial = distinct (hook configuration sequence, cache state "
     "digest) pairs, where the cache state is the multiset of tagged/plain pyc names present before each run."
@@ -80,6 +81,10 @@ def gen(seed, tier="quick"):
             m = r.choice(MODULES)
             if x < 0.7:
                 body.append({"op": "import", "module": m})
+                if r.random() < 0.12:
+                    # a source edit that lands while this import is in flight (right after the source bytes were read)
+                    body[-1]["edit_during"] = {"module": r.choice([m] + forest["imports"].get(m, [])), "same_len": r.random() < 0.5,
+                                               "grow": r.randrange(1, 4), "clock": r.choice((2, 2, 3, 10, -100, 10**7))}
             elif x < 0.85:
                 body.append({"op": "call_lazy", "module": m})
             elif ids and x < 0.92:
